@@ -225,11 +225,11 @@ def _writes_of(effs, hf, F, L):
             elif path.endswith(("hex_str::encode_rev_array", "hex_str::encode_array", "hex_str::encode_rev_1")) and len(vals) == 2 and isinstance(vals[0], View):
                 d = vals[0]
                 kind = {"encode_rev_array": "rev_array", "encode_array": "plain_array", "encode_rev_1": "rev_1"}[path.rsplit("::", 1)[-1]]
-                writes.append((d.lo, None if d.hi == L else d.hi, kind, _src_field(vals[1], hf), "src-len"))
+                writes.append((d.lo, d.hi, kind, _src_field(vals[1], hf), "src-len"))
             elif path == "hex_simd::encode" and len(vals) == 3 and isinstance(vals[1], View):
                 d = vals[1]
                 case = vals[2][1].rsplit("::", 1)[-1] if isinstance(vals[2], tuple) and len(vals[2]) > 1 and isinstance(vals[2][1], str) else None
-                writes.append((d.lo, None if d.hi == L else d.hi, "hex_simd:%s" % case, _src_field(vals[0], hf), None))
+                writes.append((d.lo, d.hi, "hex_simd:%s" % case, _src_field(vals[0], hf), None))
             else:
                 unknown.append(path)
     return writes, unknown
@@ -311,9 +311,25 @@ def _model(F, name, text):
                 kind = kinds.pop()
                 if (kind == "Err") != (Ls[-1] < N) or (kind == "Err" and any(L >= N for L in Ls)) or (kind == "Ok" and any(L < N for L in Ls)):
                     return None, "%s/%s: %s is returned for buffer lengths %d..%d (advertised size %d)" % (vname, mode, kind, Ls[0], Ls[-1], N)
-                ws = [[(a, b_, k, s_, l_) for (a, b_, k, s_, l_) in r_[1]] for r_ in reps.values()]
-                if any(w_ != ws[0] for w_ in ws):
+                # a write whose end follows the buffer length in every sample is open-ended (the callee is handed the rest of the buffer)
+                Lsamp = sorted(reps)
+                lists = [reps[L_][1] for L_ in Lsamp]
+                if len({len(w_) for w_ in lists}) != 1:
                     return None, "%s/%s: the writes of one path depend on the buffer length" % (vname, mode)
+                merged = []
+                for i_ in range(len(lists[0])):
+                    items = [w_[i_] for w_ in lists]
+                    if len({(a, k, s_, l_) for (a, b_, k, s_, l_) in items}) != 1:
+                        return None, "%s/%s: the writes of one path depend on the buffer length" % (vname, mode)
+                    his = [it[1] for it in items]
+                    if len(set(his)) == 1 and not (len(Lsamp) == 1 and his[0] == Lsamp[0] and items[0][2] in ("rev_array", "plain_array") or len(Lsamp) == 1 and his[0] == Lsamp[0] and items[0][2].startswith("hex_simd")):
+                        hi_ = his[0]
+                    elif all(h_ == L_ for h_, L_ in zip(his, Lsamp)) and (items[0][2] in ("rev_array", "plain_array", "rev_1") or items[0][2].startswith("hex_simd")):
+                        hi_ = None
+                    else:
+                        return None, "%s/%s: the end of a write depends on the buffer length" % (vname, mode)
+                    merged.append((items[0][0], hi_, items[0][2], items[0][3], items[0][4]))
+                ws = [merged]
                 if kind == "Err":
                     if ws[0] or any(r_[2] for r_ in reps.values()):
                         return None, "%s/%s: the error path writes to the buffer" % (vname, mode)
